@@ -459,11 +459,11 @@ def _pbr_ens(c):
             ('C09-other-reservations-untouched', Q([('ob', I)], lambda ob: z3.Implies(ob != nm, z3.And(
                 k1.key(ob) == k0.key(ob), z3.Select(k1.idle.vcnt, ob) == z3.Select(k0.idle.vcnt, ob))))),
             ('busy-pools-untouched', z3.And(same_list(k1.ing, k0.ing), same_list(k1.occ, k0.occ))),
-            ('counts-one-more-provision', k1.npo.t == k0.npo.t + 1), ('returns-true', c.result.val is True)]
+            ('counts-one-more-provision', k1.npo.t == k0.npo.t + 1), ('returns-true', c.result.t)]
 
 
 REG.contract('Cluster.provision_batch_resources', params={'size': 'int', 'name': 'str'}, fix={'c': 'default'},
-             ensures=_pbr_ens, raises={'IndexError': dict(when=lambda c: z3.And(c.o.size.t > 0, CV(c.o.self).av.n == 0))},
+             ensures=_pbr_ens, result='bool', raises={'IndexError': dict(when=lambda c: z3.And(c.o.size.t > 0, CV(c.o.self).av.n == 0))},
              modifies=['self._resources.available', 'self._resources.idle', 'self.num_provisioned_obs'],
              props=['C02', 'C09'])
 REG.loop('Cluster.provision_batch_resources', 0, inv=_pbr_inv, modifies_locals=['m'],
